@@ -83,7 +83,10 @@ def draws_of(kernel, iface, state, key_name, seed, N):
         out = kernel.transition(k, ks, state, ep)
         return iface.extract_position([key_name], out.model_state)[key_name]
 
-    return np.asarray(jax.jit(jax.vmap(one))(keys))
+    try:
+        return np.asarray(jax.jit(jax.vmap(one))(keys))
+    except Exception as e:
+        raise SutError(f"gibbs-transition|{type(e).__name__}|{key_name}|{e}") from e
 
 
 def run_tau2(plan, V, log, counters):
@@ -208,7 +211,10 @@ def run_discrete(plan, V, log, counters):
     label = f"finite-discrete/{plan['kind']}/{plan['lik']}" + ("/latent-prior" if plan.get("latent") else "")
     # (1) proportional to the model's joint as a function of c alone
     vals = jnp.asarray([0, 1], jnp.int32) if bern else jnp.asarray(outcomes, jnp.float32)
-    lj = np.asarray(jax.vmap(lambda v: iface.log_prob(iface.update_state({"c": v}, state)))(vals), F64)
+    try:
+        lj = np.asarray(jax.vmap(lambda v: iface.log_prob(iface.update_state({"c": v}, state)))(vals), F64)
+    except Exception as e:
+        raise SutError(f"log_prob|{type(e).__name__}|discrete|{e}") from e
     pj = np.exp(lj - special.logsumexp(lj))
     if not np.allclose(pj, cond, atol=2e-3):
         V.add("conditional-proportional-to-joint", label, f"normalised joint over the outcomes {pj.tolist()} vs analytic full conditional {cond.tolist()}")
